@@ -4,6 +4,7 @@ import PdbVerif.Driver.BJson
 import PdbVerif.Model.Table
 import PdbVerif.Model.TableWorld
 import PdbVerif.Model.TableJoin
+import PdbVerif.Model.TableWorldText
 
 namespace Driver.ModelB
 open Lean Driver Driver.B Tbl
@@ -19,17 +20,20 @@ def outJ : Except Model.Err Unit → Json
   | .ok _ => "ok"
   | .error e => errJ e
 
-/-- a history: after every step the outcome, and the whole state (`get('*')` of every table, `get_colnames()`) -/
-def runHist (db : Db) : List Tbl.Op → List Json
+/-- a history: after every step the outcome (the answer, for a query), and the whole state (`get('*')` of every
+    table, `get_colnames()`) -/
+def runHist (db : Db) : List HistItem → List Json
   | [] => []
-  | op :: rest =>
+  | .modify op :: rest =>
     let (db', out) := Model.step db op
     Json.mkObj [("out", outJ out), ("db", dbJ db')] :: runHist db' rest
+  | .query columns tn kw :: rest =>
+    Json.mkObj [("out", resultJ (Model.get db columns tn kw)), ("db", dbJ db)] :: runHist db rest
 
 def runWorld (w : Model.World) : List WOp → List Json
   | [] => []
   | op :: rest =>
-    let (w', out) := Model.wstep roundtripRepresentable w op
+    let (w', out) := Model.wstep Model.textRoundtrip w op
     Json.mkObj [("out", outJ out), ("objs", worldJ w')] :: runWorld w' rest
 
 def op (name : String) (j : Json) : Except String (Option Json) := do
@@ -59,13 +63,19 @@ def op (name : String) (j : Json) : Except String (Option Json) := do
       | .error e => errJ e))
   | "hist" =>
     let db ← dbOfJson (← j.getObjVal? "db")
-    let ops ← (← jArr j "ops").toList.mapM opOfJson
+    let ops ← (← jArr j "ops").toList.mapM histItemOfJson
     pure (some (.arr (runHist db ops).toArray))
   | "intersection" =>
     let db ← dbOfJson (← j.getObjVal? "db")
     let m ← (← jArr j "match").toList.mapM (fun x => do let s ← asStr x; pure s.toList)
     pure (some (match Model.getIntersection db (← strOf j "column") m with
       | .ok per => .arr (per.map (fun rows => Json.arr (rows.map (fun vs => Json.arr (vs.map valJ).toArray)).toArray)).toArray
+      | .error e => errJ e))
+  | "intersect" =>
+    let db ← dbOfJson (← j.getObjVal? "db")
+    let m ← (← jArr j "match").toList.mapM (fun x => do let s ← asStr x; pure s.toList)
+    pure (some (match Model.intersect Model.textRoundtrip db m with
+      | .ok db' => dbJ db'
       | .error e => errJ e))
   | "world" =>
     let objs ← (← jArr j "objs").toList.mapM objOfJson
